@@ -237,16 +237,29 @@ func (rpi *RetentionPolicyInfo) Apply(spec *RetentionPolicySpec) *RetentionPolic
 	return rp
 }
 
-func (rpi *RetentionPolicyInfo) shardingType() string {
-	shardType := ""
-	if len(rpi.Measurements) > 0 {
-		for _, mst := range rpi.Measurements {
-			if len(mst.ShardKeys) > 0 {
-				shardType = mst.ShardKeys[0].Type
-			}
+// firstMeasurement returns, among the measurements that satisfy keep, the one with the smallest
+// (versioned) name. Commands that need "a" measurement of the policy must take the same one on
+// every meta node; the iteration order of the map differs from node to node.
+func (rpi *RetentionPolicyInfo) firstMeasurement(keep func(*MeasurementInfo) bool) *MeasurementInfo {
+	var first *MeasurementInfo
+	firstKey := ""
+	for key, mst := range rpi.Measurements {
+		if keep != nil && !keep(mst) {
+			continue
+		}
+		if first == nil || key < firstKey {
+			first, firstKey = mst, key
 		}
 	}
-	return shardType
+	return first
+}
+
+func (rpi *RetentionPolicyInfo) shardingType() string {
+	msti := rpi.firstMeasurement(func(mst *MeasurementInfo) bool { return len(mst.ShardKeys) > 0 })
+	if msti == nil {
+		return ""
+	}
+	return msti.ShardKeys[0].Type
 }
 
 func (rpi *RetentionPolicyInfo) TimeRangeInfo(shardID uint64) *ShardTimeRangeInfo {
@@ -656,14 +669,7 @@ func (rpi *RetentionPolicyInfo) Measurement(name string) *MeasurementInfo {
 }
 
 func (rpi *RetentionPolicyInfo) validMeasurementShardType(shardType, mstName string) error {
-	var msti *MeasurementInfo
-	for _, mst := range rpi.Measurements {
-		if influx.GetOriginMstName(mst.Name) == mstName {
-			continue
-		}
-		msti = mst
-		break
-	}
+	msti := rpi.firstMeasurement(func(mst *MeasurementInfo) bool { return influx.GetOriginMstName(mst.Name) != mstName })
 	if msti == nil || msti.ShardKeys == nil {
 		return nil
 	}
